@@ -520,6 +520,15 @@ func C03GenOn(r *Run, driver string) {
 		spaces = []space{{full, 3, 0}, {core, 4, 3}}
 		nrand, lrand = 1500, 50
 	}
+	if c03OtherDriver(r.Mode) != "" {
+		// the same histories on the other embedded stores (kvgraph must not depend on what the store
+		// does with a failing callback, on its snapshot rules, …): full alphabet to depth 2 + random
+		spaces = []space{{full, 2, 0}}
+		nrand = 40
+		if r.Tier == "thorough" {
+			nrand = 400
+		}
+	}
 	if r.Mode == "replaydrivers" {
 		spaces = []space{{full, 1, 0}, {core, 2, 1}}
 		nrand = 30
@@ -595,11 +604,30 @@ func C03GenOn(r *Run, driver string) {
 	r.Exhaustive = true
 }
 
+// c03OtherDriver: modes "badger", "bolt", "pebble" run C03 on that store (default: level)
+func c03OtherDriver(mode string) string {
+	switch mode {
+	case "badger", "bolt", "pebble":
+		return mode
+	}
+	return ""
+}
+
 func init() {
 	Registry["C03"] = Prop{
-		Gen: func(r *Run) { C03GenOn(r, "level") },
+		Gen: func(r *Run) {
+			if d := c03OtherDriver(r.Mode); d != "" {
+				C03GenOn(r, d)
+				return
+			}
+			C03GenOn(r, "level")
+		},
 		Replay: func(r *Run, ops []map[string]interface{}) {
-			w := NewC03World("level")
+			drv := "level"
+			if d := c03OtherDriver(r.Mode); d != "" {
+				drv = d
+			}
+			w := NewC03World(drv)
 			defer w.Destroy()
 			for _, op := range ops {
 				r.Emit(op, w.Exec(op))
